@@ -918,7 +918,7 @@ MC_THOROUGH = {
     "grid": ("RetainState_mcG_thorough.cfg", MC_QUICK["grid"][1]),
     "copy": ("RetainState_mcC_thorough.cfg", MC_QUICK["copy"][1]),
     "db": ("RetainState_mcD_thorough.cfg", MC_QUICK["db"][1]),
-    "links": ("RetainState_mcL.cfg", MC_QUICK["links"][1]),
+    "links": ("RetainState_mcL_thorough.cfg", MC_QUICK["links"][1]),
 }
 # emission instances: label -> (cfg, every edge under every profile?)   (otherwise the edges are dealt out to the profiles)
 # an optional third entry names the profiles the graph is replayed under (default: PROFILES)
